@@ -235,12 +235,22 @@ def spelling(v, mode, rng):
 TREE_DIRS = [("T",), ("T", "d1"), ("T", "d1", "d2"), ("T", "d3")]
 
 
-def materialise(root, v, mode, sp, frag_ref):
-    """Write the chain and the decoys.  Returns nothing."""
+LEAF_DIRS = [("T", "d1", "d2"), ("T", "d3"), ("O",)]
+
+
+def materialise(root, v, mode, sp, links):
+    """Write the chain and the decoys.  links: leaf directories that are symbolic links to directories kept
+    elsewhere (a resource is addressed by the name it was given, not by where its directory really lives)."""
     def real(segs):
         return os.path.join(root, *[sp[x] for x in segs])
     for d in TREE_DIRS + [("O",)]:
-        os.makedirs(real(d), exist_ok=True)
+        if tuple(d) in links:
+            target = os.path.join(root, "~real", "-".join(d))
+            os.makedirs(target, exist_ok=True)
+            os.makedirs(os.path.dirname(real(d)), exist_ok=True)
+            os.symlink(target, real(d))
+        else:
+            os.makedirs(real(d), exist_ok=True)
     n = len(v["res"])
     for i in range(1, n + 1):
         here = tuple(v["res"][i - 1])
@@ -380,8 +390,10 @@ def replay_b(v):
         sp = spelling(v, mode, rng)
         shutil.rmtree(root, ignore_errors=True)
         os.makedirs(root)
+        # some leaf directories are symbolic links (never the working directory: os.getcwd() is physical)
+        links = {d for d in LEAF_DIRS if list(d) != list(v["cwd"]) and rng.random() < 0.3}
         try:
-            materialise(root, v, mode, sp, None)
+            materialise(root, v, mode, sp, links)
             got = run_entry(root, v, mode, sp)
         finally:
             shutil.rmtree(root, ignore_errors=True)
@@ -390,7 +402,8 @@ def replay_b(v):
         if not ok:
             why = "%s: %s" % (mode, "internal-error" if got["r"] == "raised" else
                               "refusal" if got["r"] != want["r"] else "wrong resource reached")
-            return {"clause": why, "input": {"scenario": v, "spelling": sp, "mode": mode}, "spec": want,
+            return {"clause": why, "input": {"scenario": v, "spelling": sp, "mode": mode,
+                                             "symlinked_directories": sorted(links)}, "spec": want,
                     "observed": got, "class": {"clause": why, "kind": v["kind"]}}
     return None
 
@@ -442,7 +455,8 @@ def run(chk):
         "urllib.parse.urldefrag / urljoin, os.path.abspath and urllib.request.pathname2url are environment: their "
         "answers are recorded next to ZConfig's and the specification only adds ZConfig's own post-processing",
         "one seeded spelling of directory and file names per scenario and mode (alphabet: letters, digits, space, "
-        "- _ . ~ + & ; [ ], three non-ASCII letters; no leading/trailing blank, not starting with ~); names inside "
+        "- _ . ~ + & ; [ ], three non-ASCII letters; no leading/trailing blank, not starting with ~); leaf directories other "
+        "than the working directory are symbolic links with probability 0.3; names inside "
         "a schema extends list carry no blank (the attribute is a blank-separated list)"]
 
 
